@@ -252,7 +252,23 @@ class C10:
             objk, _, objv = colmap[st['obj']]
             byname = st.get('by') or st['obj']
             byk, _, byv = colmap[byname]
-            if st.get('by'):
+            key = st.get('key')
+            if key:
+                # a detached column: dm.col[::-1], dm.col[[i, j, ...]] (all rows in another order, or some), dm.col[a:b];
+                # it keeps pointing at the table it came from but has row ids (and an order) of its own
+                if key.get('rev'):
+                    kp, pykey = list(range(len(ids) - 1, -1, -1)), slice(None, None, -1)
+                elif 'idx' in key:
+                    kp, pykey = list(key['idx']), list(key['idx'])
+                else:
+                    kp, pykey = list(range(len(ids)))[key['slice'][0]:key['slice'][1]], slice(key['slice'][0], key['slice'][1])
+                objv, byv, ids = [objv[i] for i in kp], [byv[i] for i in kp], [ids[i] for i in kp]
+                if st.get('by'):
+                    res = ops.sort(dm[st['obj']][pykey], by=dm[st['by']][pykey])
+                else:
+                    res = ops.sort(dm[st['obj']][pykey])
+                out['tags'].append('detached')
+            elif st.get('by'):
                 res = ops.sort(dm[st['obj']], by=dm[st['by']])
             else:
                 res = ops.sort(dm[st['obj']])
@@ -267,11 +283,12 @@ class C10:
                 fails.append('len(result) != number of values')
             # position-aligned: can be assigned back to (a copy of) the DataMatrix
             try:
-                d2 = dm[:]
-                d2['zz_sorted'] = res
-                back = [plain(v) for v in d2['zz_sorted']]
-                if vals_lit(back) != vals_lit(rvals):
-                    fails.append('assigned-back column reads %r, sorted column %r' % (back, rvals))
+                if not key:
+                    d2 = dm[:]
+                    d2['zz_sorted'] = res
+                    back = [plain(v) for v in d2['zz_sorted']]
+                    if vals_lit(back) != vals_lit(rvals):
+                        fails.append('assigned-back column reads %r, sorted column %r' % (back, rvals))
             except Exception as e:          # noqa: BLE001
                 fails.append('sorted column cannot be assigned back: %r' % (e,))
             if not fails:
@@ -425,6 +442,9 @@ class C10:
                         if st.get('by') == 't' and rep % 2:
                             continue
                         cases.append(self.rerun(dict(inp, steps=[st])))
+                    if m >= 2:
+                        for st in ({'op': 'sort_col', 'obj': 'a'}, {'op': 'sort_col', 'obj': 'o', 'by': 'a'}):
+                            cases.append(self.rerun(dict(inp, steps=[dict(st, key=self.detach_key(rng, m))])))
                     if rep == 0 or thorough:
                         binsl = list(range(1, m + 2))
                     else:
@@ -451,7 +471,9 @@ class C10:
                 if m < 3:
                     continue
                 judged = lambda: rng.choice([{'op': 'sort_dm', 'by': rng.choice(['a', 'o'])}, {'op': 'sort_col', 'obj': 'o', 'by': 'a'},
-                                             {'op': 'sort_col', 'obj': 'a'}, {'op': 'sort_dm', 'by': 'a'}])
+                                             {'op': 'sort_col', 'obj': 'a'}, {'op': 'sort_dm', 'by': 'a'},
+                                             {'op': 'sort_col', 'obj': 'a', 'key': self.detach_key(rng, m)},
+                                             {'op': 'sort_col', 'obj': 'o', 'by': 'a', 'key': self.detach_key(rng, m)}])
                 steps = [judged()]
                 for _k in range(rng.randint(1, 3)):
                     for _u in range(rng.randint(1, 3)):
@@ -482,6 +504,21 @@ class C10:
                                          {'op': 'bin_split', 'col': 'a', 'bins': rng.randint(1, m)}]))
                 cases.append(self.rerun(dict(inp, steps=steps, tags=['history'])))
         return cases
+
+    def detach_key(self, rng, m):
+        c = rng.random()
+        if c < 0.3:
+            return {'rev': True}
+        if c < 0.6:
+            p = list(range(m))
+            rng.shuffle(p)
+            return {'idx': p}
+        if c < 0.8:
+            p = [i for i in range(m) if rng.random() < 0.7] or [0]
+            rng.shuffle(p)
+            return {'idx': p}
+        a = rng.randrange(0, m)
+        return {'slice': [a, rng.randrange(a, m + 1)]}
 
     def scenario(self, rng, kind, n, order_kind):
         alpha = [rand_value(rng, kind) for _ in range(max(1, rng.choice([n, n // 2 + 1, 3])))]
@@ -570,7 +607,8 @@ def representative_values():
 def rand_value(rng, kind):
     if kind == 'KInt':
         return rng.choice([rng.randint(-3, 3), rng.randint(-100, 100), 2 ** 53 + rng.randint(0, 2), -(2 ** 53) - 1,
-                           2 ** 62 + rng.randint(0, 1), rng.randint(-2 ** 40, 2 ** 40)])
+                           2 ** 62 + rng.randint(0, 3), -(2 ** 62) - rng.randint(0, 3), 2 ** 63 - 1, -(2 ** 63),
+                           rng.randint(-2 ** 40, 2 ** 40)])
     if kind == 'KFloat':
         return rng.choice([rng.randint(-3, 3), rng.randint(-3, 3) + 0.5, NAN, INF, -INF, 0.0, -0.0,
                            rng.uniform(-10, 10), 1e300, -1e300, 5e-324, float(2 ** 53), rng.randint(-2, 2) / 4.0])
@@ -582,6 +620,10 @@ def rand_value(rng, kind):
         return rng.choice([rng.randint(-3, 3) + 0.5, rng.uniform(-5, 5), 1.5e300, -0.75, 0.1, 2 ** 53 + 0.0])
     if c < 0.6:
         return rng.choice([INF, -INF])
+    if c < 0.68:
+        # text that float() / int() can or cannot parse: what is stored decides (a number if the column converted it,
+        # text otherwise), and text sorts after every number
+        return rng.choice(['1_5', '2021_03', ' 7 ', '1e3', '+3', '0x10', '1_000.5', '1__5', '_1', '1_', '3.', '.5', '1,5'])
     if c < 0.8:
         return rng.choice(['', 'a', 'b', 'B', 'ab', 'é', 'z', '日本', 'A', 'aa', '_', 'x y', '~'])
     if c < 0.9:
